@@ -147,7 +147,12 @@ theorem step_quoteEnd (st : St) (f : Fast) (l : Bool) (hm : st.mode = .string) (
          | .error e => .error e
          | .ok s2 => .ok (s2, fS f, false)) := by
   simp [step, stepCore, stepAct, stepActP, nextFast, refTables, hm, hf, hc, hq, expected, fS]
-  cases st.addStringP st.tmp.reverse <;> simp [Functor.map, Except.map] <;> (split <;> rfl)
+  cases st.addStringP st.tmp.reverse with
+  | error e => simp [Functor.map, Except.map]
+  | ok a =>
+    simp only [Functor.map, Except.map]
+    generalize deliver _ cfg a = d
+    cases d <;> rfl
 
 theorem step_tokenStart (st : St) (f : Fast) (b : UInt8) (l : Bool) (hm : st.mode = .value)
     (hb : expected .value b = .tokenStart) (ht : expected .token b = .tokenOk) (hs : expected .space b ≠ .skipChar) :
@@ -168,6 +173,7 @@ section runs
 variable (cfg : Cfg) (hc : cfg.tokenizer = false)
 include hc
 
+omit hc in
 /-- one successful step in front of a run -/
 theorem runBytes_cons_ok {st st' : St} {f f' : Fast} {p : Pos} {b : UInt8} {r : Bytes} {nl : Bool}
     (h : ∀ l, step refTables cfg st f b l = .ok (st', f', nl)) :
@@ -185,16 +191,247 @@ theorem run_uXXXX (st : St) (f : Fast) (p : Pos) (h1 h2 h3 h4 : UInt8) (rest : B
             rn := ((Json.hexDigitVal h1 * 16 + Json.hexDigitVal h2) * 16 + Json.hexDigitVal h3) * 16 + Json.hexDigitVal h4
             tmp := (Json.utf8Enc (((Json.hexDigitVal h1 * 16 + Json.hexDigitVal h2) * 16 + Json.hexDigitVal h3) * 16 + Json.hexDigitVal h4)).reverse ++ st.tmp }
         (fS f) p' rest := by
-  refine ⟨_, ?_⟩
-  rw [runBytes_cons_ok cfg hc (fun l => step_strSlash cfg hc st f l hm hf)]
-  rw [runBytes_cons_ok cfg hc (fun l => step_escU cfg hc _ _ l rfl rfl)]
-  rw [runBytes_cons_ok cfg hc (fun l => step_uOk cfg hc _ _ h1 l rfl x1 rfl)]
-  rw [runBytes_cons_ok cfg hc (fun l => step_uOk cfg hc _ _ h2 l (by simp) x2 rfl)]
-  rw [runBytes_cons_ok cfg hc (fun l => step_uOk cfg hc _ _ h3 l (by simp) x3 rfl)]
-  rw [runBytes_cons_ok cfg hc (fun l => step_uOk cfg hc _ _ h4 l (by simp) x4 rfl)]
+  refine ⟨(((((p.next false).next false).next false).next false).next false).next false, ?_⟩
+  rw [runBytes_cons_ok cfg (fun l => step_strSlash cfg hc st f l hm hf)]
+  rw [runBytes_cons_ok cfg (fun l => step_escU cfg hc _ _ l rfl rfl)]
+  rw [runBytes_cons_ok cfg (fun l => step_uOk cfg hc _ _ h1 l rfl x1 rfl)]
+  rw [runBytes_cons_ok cfg (fun l => step_uOk cfg hc _ _ h2 l (by simp) x2 rfl)]
+  rw [runBytes_cons_ok cfg (fun l => step_uOk cfg hc _ _ h3 l (by simp) x3 rfl)]
+  rw [runBytes_cons_ok cfg (fun l => step_uOk cfg hc _ _ h4 l (by simp) x4 rfl)]
   simp [hm, fS]
-  rfl
 
 end runs
+
+/-! ## what the quoted text denotes -/
+
+/-- the bytes the text `senBody` produces stands for (what the string reader gives back): every
+escape undone, the three special characters re-encoded -/
+def senDenote (html : Bool) : Nat → Bool → Bytes → Bytes
+  | _, _, [] => []
+  | skip+1, copy, b :: r =>
+    if copy then b :: senDenote html skip copy r else senDenote html skip copy r
+  | 0, _, b :: r =>
+    if senClass b = c8 then
+      if (utf8Decode (b :: r)).1 = 0x2028 then [0xE2, 0x80, 0xA8] ++ senDenote html ((utf8Decode (b :: r)).2 - 1) false r
+      else if (utf8Decode (b :: r)).1 = 0x2029 then [0xE2, 0x80, 0xA9] ++ senDenote html ((utf8Decode (b :: r)).2 - 1) false r
+      else if (utf8Decode (b :: r)).1 = runeError then fffd ++ senDenote html ((utf8Decode (b :: r)).2 - 1) false r
+      else b :: senDenote html ((utf8Decode (b :: r)).2 - 1) true r
+    else b :: senDenote html 0 true r
+
+/-- the first `k` bytes are continuation-range bytes -/
+def highPrefix : Nat → Bytes → Prop
+  | 0, _ => True
+  | _+1, [] => True
+  | k+1, b :: r => 128 ≤ b ∧ highPrefix k r
+
+/-- after a well-formed lead byte come `width - 1` bytes from 0x80 up -/
+theorem decode_highPrefix (b : UInt8) (r : Bytes) (hb : 128 ≤ b) : highPrefix ((utf8Decode (b :: r)).2 - 1) r := by
+  rcases Writer.decode_cases b r hb with h | ⟨b1, r', n, rfl, h1, hd, _⟩ | ⟨b1, b2, r', n, rfl, h1, h2, hd, _⟩ |
+      ⟨b1, b2, b3, r', n, rfl, h1, h2, h3, hd, _⟩
+  · rw [h]; simp [highPrefix]
+  · rw [hd]; simp [highPrefix, h1]
+  · rw [hd]; simp [highPrefix, h1, h2]
+  · rw [hd]; simp [highPrefix, h1, h2, h3]
+
+section body
+variable (cfg : Cfg) (hc : cfg.tokenizer = false)
+include hc
+
+theorem run_special (st : St) (f : Fast) (p : Pos) (h1 h2 h3 h4 : UInt8) (n : Nat) (rest : Bytes)
+    (hm : st.mode = .string) (hf : f.nlSkipping = false)
+    (x1 : isHex h1 = true) (x2 : isHex h2 = true) (x3 : isHex h3 = true) (x4 : isHex h4 = true)
+    (hn : ((Json.hexDigitVal h1 * 16 + Json.hexDigitVal h2) * 16 + Json.hexDigitVal h3) * 16 + Json.hexDigitVal h4 = n) :
+    ∃ ri rn p', runBytes refTables cfg st f p ([92, 117, h1, h2, h3, h4] ++ rest) =
+      runBytes refTables cfg { st with ri := ri, rn := rn, tmp := (Json.utf8Enc n).reverse ++ st.tmp } (fS f) p' rest := by
+  obtain ⟨p', hp⟩ := run_uXXXX cfg hc st f p h1 h2 h3 h4 rest hm hf x1 x2 x3 x4
+  refine ⟨4, n, p', ?_⟩
+  simp only [List.cons_append, List.nil_append]
+  rw [hp, hn]
+
+theorem run_u00 (st : St) (f : Fast) (p : Pos) (b : UInt8) (rest : Bytes)
+    (hm : st.mode = .string) (hf : f.nlSkipping = false) (hb : b < 128) :
+    ∃ ri rn p', runBytes refTables cfg st f p (u00 b ++ rest) =
+      runBytes refTables cfg { st with ri := ri, rn := rn, tmp := b :: st.tmp } (fS f) p' rest := by
+  obtain ⟨x3, x4, hv⟩ := hex_roundtrip b
+  have h0 : Json.hexDigitVal 48 = 0 := by decide
+  obtain ⟨ri, rn, p', hp⟩ := run_special cfg hc st f p 48 48 _ _ b.toNat rest hm hf (by decide) (by decide) x3 x4
+    (by rw [h0]; simpa using hv)
+  refine ⟨ri, rn, p', ?_⟩
+  rw [utf8Enc_ascii b hb] at hp
+  simpa [u00] using hp
+
+/-- **the string reader undoes the writer's loop**: from string mode (opened by `"`), the machine run
+over the body the loop writes arrives, still in string mode, with exactly `senDenote` appended to the
+pending string -/
+theorem body_run (html : Bool) : ∀ (s : Bytes) (skip : Nat) (copy : Bool) (st : St) (f : Fast) (p : Pos) (rest : Bytes),
+    st.mode = .string → st.quoteDelim = 34 → f.nlSkipping = false → f.inFast = false →
+    (copy = true → highPrefix skip s) →
+    ∃ ri rn p', runBytes refTables cfg st f p (senBody html skip copy s ++ rest) =
+      runBytes refTables cfg { st with ri := ri, rn := rn, tmp := (senDenote html skip copy s).reverse ++ st.tmp } f p' rest := by
+  intro s
+  induction s with
+  | nil =>
+    intro skip copy st f p rest _ _ _ _ _
+    exact ⟨st.ri, st.rn, p, by simp [senBody, senDenote]⟩
+  | cons b r ih =>
+    intro skip copy st f p rest hm hq hf hi hp
+    have hfS : fS f = f := by cases f; simp_all [fS]
+    -- one raw byte, then the rest
+    have raw : ∀ (k : Nat) (c : Bool), (expected .string b = .strOk ∨ b = 39) → (c = true → highPrefix k r) →
+        ∃ ri rn p', runBytes refTables cfg st f p (b :: (senBody html k c r ++ rest)) =
+          runBytes refTables cfg { st with ri := ri, rn := rn, tmp := (b :: senDenote html k c r).reverse ++ st.tmp } f p' rest := by
+      intro k c hb hk
+      rw [runBytes_cons_ok cfg (fun l => step_raw cfg hc st f b l hm hq hf hb), hfS]
+      obtain ⟨ri, rn, p', h⟩ := ih k c { st with tmp := b :: st.tmp } f (p.next false) rest hm hq hf hi hk
+      exact ⟨ri, rn, p', by rw [h]; simp⟩
+    cases skip with
+    | succ k =>
+      cases copy with
+      | true =>
+        have hp' := hp rfl
+        simp only [highPrefix] at hp'
+        simp only [senBody, senDenote, ↓reduceIte, List.cons_append]
+        exact raw k true (Or.inl (high_strOk b hp'.1)) (fun _ => hp'.2)
+      | false =>
+        simp only [senBody, senDenote, Bool.false_eq_true, ↓reduceIte]
+        exact ih k false st f p rest hm hq hf hi (by intro h; cases h)
+    | zero =>
+      by_cases h1 : senClass b = cO ∨ senClass b = c0 ∨ senClass b = cX
+      · -- copied verbatim
+        have hne8 : senClass b ≠ c8 := by rcases h1 with h | h | h <;> rw [h] <;> decide
+        have hb : expected .string b = .strOk ∨ b = 39 := raw_in_string b (by
+          rcases h1 with h | h | h
+          · exact Or.inl h
+          · exact Or.inr (Or.inl h)
+          · exact Or.inr (Or.inr (Or.inl h)))
+        have e1 : senBody html 0 copy (b :: r) = b :: senBody html 0 true r := by
+          simp only [senBody]
+          rcases h1 with h | h | h <;> simp [h, cO, c0, cX]
+        have e2 : senDenote html 0 copy (b :: r) = b :: senDenote html 0 true r := by
+          simp only [senDenote, hne8, ↓reduceIte]
+        rw [e1, e2, List.cons_append]
+        exact raw 0 true hb (fun _ => trivial)
+      · have h1' : ¬ (senClass b = cO) ∧ ¬ (senClass b = c0) ∧ ¬ (senClass b = cX) := by
+          refine ⟨fun h => h1 (Or.inl h), fun h => h1 (Or.inr (Or.inl h)), fun h => h1 (Or.inr (Or.inr h))⟩
+        by_cases h2 : senClass b = cDot
+        · -- \u00XX
+          have hne8 : senClass b ≠ c8 := by rw [h2]; decide
+          have e1 : senBody html 0 copy (b :: r) = u00 b ++ senBody html 0 true r := by
+            simp only [senBody]; simp [h2, cO, c0, cX, cDot]
+          have e2 : senDenote html 0 copy (b :: r) = b :: senDenote html 0 true r := by
+            simp only [senDenote, hne8, ↓reduceIte]
+          rw [e1, e2, List.append_assoc]
+          obtain ⟨ri1, rn1, p1, hu⟩ := run_u00 cfg hc st f p b (senBody html 0 true r ++ rest) hm hf
+            (classDot_lt b (Or.inl h2))
+          rw [hu, hfS]
+          obtain ⟨ri, rn, p', h⟩ := ih 0 true { st with ri := ri1, rn := rn1, tmp := b :: st.tmp } f p1 rest hm hq hf hi
+            (fun _ => trivial)
+          exact ⟨ri, rn, p', by rw [h]; simp⟩
+        · by_cases h3 : senClass b = cH
+          · have hne8 : senClass b ≠ c8 := by rw [h3]; decide
+            have e2 : senDenote html 0 copy (b :: r) = b :: senDenote html 0 true r := by
+              simp only [senDenote, hne8, ↓reduceIte]
+            cases html with
+            | true =>
+              have e1 : senBody true 0 copy (b :: r) = u00 b ++ senBody true 0 true r := by
+                simp only [senBody]; simp [h3, cO, c0, cX, cDot, cH]
+              rw [e1, e2, List.append_assoc]
+              obtain ⟨ri1, rn1, p1, hu⟩ := run_u00 cfg hc st f p b (senBody true 0 true r ++ rest) hm hf
+                (classDot_lt b (Or.inr h3))
+              rw [hu, hfS]
+              obtain ⟨ri, rn, p', h⟩ := ih 0 true { st with ri := ri1, rn := rn1, tmp := b :: st.tmp } f p1 rest hm hq hf hi
+                (fun _ => trivial)
+              exact ⟨ri, rn, p', by rw [h]; simp⟩
+            | false =>
+              have e1 : senBody false 0 copy (b :: r) = b :: senBody false 0 true r := by
+                simp only [senBody]; simp [h3, cO, c0, cX, cDot, cH]
+              rw [e1, e2, List.cons_append]
+              exact raw 0 true (raw_in_string b (Or.inr (Or.inr (Or.inr (Or.inl h3))))) (fun _ => trivial)
+          · by_cases h4 : senClass b = c8
+            · -- a multi-byte sequence
+              have hb8 : 128 ≤ b := (class8_iff b).mp h4
+              have hk := decode_highPrefix b r hb8
+              have hraw : expected .string b = .strOk ∨ b = 39 := Or.inl (high_strOk b hb8)
+              have hcls : ¬ (senClass b = cO ∨ senClass b = c0 ∨ senClass b = cX) := h1
+              by_cases r1 : (utf8Decode (b :: r)).1 = 0x2028
+              · have e1 : senBody html 0 copy (b :: r) = esc2028 ++ senBody html ((utf8Decode (b :: r)).2 - 1) false r := by
+                  simp only [senBody]; simp [h4, r1, c8, cO, c0, cX, cDot, cH]
+                have e2 : senDenote html 0 copy (b :: r) = [0xE2, 0x80, 0xA8] ++ senDenote html ((utf8Decode (b :: r)).2 - 1) false r := by
+                  simp only [senDenote, h4, r1, ↓reduceIte]
+                rw [e1, e2, List.append_assoc]
+                obtain ⟨ri1, rn1, p1, hu⟩ := run_special cfg hc st f p 50 48 50 56 0x2028
+                  (senBody html ((utf8Decode (b :: r)).2 - 1) false r ++ rest) hm hf (by decide) (by decide) (by decide) (by decide) (by decide)
+                rw [show esc2028 = [92, 117, 50, 48, 50, 56] from rfl, hu, hfS]
+                obtain ⟨ri, rn, p', h⟩ := ih _ false { st with ri := ri1, rn := rn1, tmp := (Json.utf8Enc 0x2028).reverse ++ st.tmp } f p1 rest
+                  hm hq hf hi (by intro h; cases h)
+                refine ⟨ri, rn, p', ?_⟩
+                rw [h]
+                have : Json.utf8Enc 0x2028 = [0xE2, 0x80, 0xA8] := by decide
+                simp [this]
+              · by_cases r2 : (utf8Decode (b :: r)).1 = 0x2029
+                · have e1 : senBody html 0 copy (b :: r) = esc2029 ++ senBody html ((utf8Decode (b :: r)).2 - 1) false r := by
+                    simp only [senBody]; simp [h4, r1, r2, c8, cO, c0, cX, cDot, cH]
+                  have e2 : senDenote html 0 copy (b :: r) = [0xE2, 0x80, 0xA9] ++ senDenote html ((utf8Decode (b :: r)).2 - 1) false r := by
+                    simp only [senDenote, h4, r1, r2, ↓reduceIte]
+                  rw [e1, e2, List.append_assoc]
+                  obtain ⟨ri1, rn1, p1, hu⟩ := run_special cfg hc st f p 50 48 50 57 0x2029
+                    (senBody html ((utf8Decode (b :: r)).2 - 1) false r ++ rest) hm hf (by decide) (by decide) (by decide) (by decide) (by decide)
+                  rw [show esc2029 = [92, 117, 50, 48, 50, 57] from rfl, hu, hfS]
+                  obtain ⟨ri, rn, p', h⟩ := ih _ false { st with ri := ri1, rn := rn1, tmp := (Json.utf8Enc 0x2029).reverse ++ st.tmp } f p1 rest
+                    hm hq hf hi (by intro h; cases h)
+                  refine ⟨ri, rn, p', ?_⟩
+                  rw [h]
+                  have : Json.utf8Enc 0x2029 = [0xE2, 0x80, 0xA9] := by decide
+                  simp [this]
+                · by_cases r3 : (utf8Decode (b :: r)).1 = runeError
+                  · have e1 : senBody html 0 copy (b :: r) = escFFFD ++ senBody html ((utf8Decode (b :: r)).2 - 1) false r := by
+                      simp only [senBody]; simp [h4, r1, r2, r3, c8, cO, c0, cX, cDot, cH]
+                    have e2 : senDenote html 0 copy (b :: r) = fffd ++ senDenote html ((utf8Decode (b :: r)).2 - 1) false r := by
+                      simp only [senDenote, h4, r1, r2, r3, ↓reduceIte]
+                    rw [e1, e2, List.append_assoc]
+                    obtain ⟨ri1, rn1, p1, hu⟩ := run_special cfg hc st f p 102 102 102 100 0xFFFD
+                      (senBody html ((utf8Decode (b :: r)).2 - 1) false r ++ rest) hm hf (by decide) (by decide) (by decide) (by decide) (by decide)
+                    rw [show escFFFD = [92, 117, 102, 102, 102, 100] from rfl, hu, hfS]
+                    obtain ⟨ri, rn, p', h⟩ := ih _ false { st with ri := ri1, rn := rn1, tmp := (Json.utf8Enc 0xFFFD).reverse ++ st.tmp } f p1 rest
+                      hm hq hf hi (by intro h; cases h)
+                    refine ⟨ri, rn, p', ?_⟩
+                    rw [h]
+                    have : Json.utf8Enc 0xFFFD = fffd := by decide
+                    simp [this]
+                  · have e1 : senBody html 0 copy (b :: r) = b :: senBody html ((utf8Decode (b :: r)).2 - 1) true r := by
+                      simp only [senBody]; simp [h4, r1, r2, r3, c8, cO, c0, cX, cDot, cH]
+                    have e2 : senDenote html 0 copy (b :: r) = b :: senDenote html ((utf8Decode (b :: r)).2 - 1) true r := by
+                      simp only [senDenote, h4, r1, r2, r3, ↓reduceIte]
+                    rw [e1, e2, List.cons_append]
+                    exact raw _ true hraw (fun _ => hk)
+            · -- a two-character escape
+              have hesc := class_escape b (by
+                intro h
+                rcases h with h | h | h | h | h | h
+                · exact h1'.1 h
+                · exact h1'.2.1 h
+                · exact h1'.2.2 h
+                · exact h2 h
+                · exact h3 h
+                · exact h4 h)
+              have e1 : senBody html 0 copy (b :: r) = [92, senClass b] ++ senBody html 0 true r := by
+                simp only [senBody]
+                simp [h1'.1, h1'.2.1, h1'.2.2, h2, h3, h4]
+              have e2 : senDenote html 0 copy (b :: r) = b :: senDenote html 0 true r := by
+                simp only [senDenote, h4, ↓reduceIte]
+              rw [e1, e2]
+              simp only [List.cons_append, List.nil_append]
+              rw [runBytes_cons_ok cfg (fun l => step_strSlash cfg hc st f l hm hf)]
+              rw [runBytes_cons_ok cfg (fun l => step_escOk cfg hc _ _ (senClass b) l rfl hesc.1 rfl)]
+              rw [hesc.2]
+              have hfS2 : fS (fS f) = f := by rw [fS_idem, hfS]
+              rw [hfS2]
+              obtain ⟨ri, rn, p', h⟩ := ih 0 true { st with tmp := b :: st.tmp, mode := .string } f _ rest rfl hq hf hi
+                (fun _ => trivial)
+              refine ⟨ri, rn, p', ?_⟩
+              rw [h]
+              simp [hm]
+
+end body
 
 end OjgVerif.Sen
